@@ -25,6 +25,7 @@ def build(H, tier, seed):
     A.vc_custom_basis(H)
     A.vc_blade2canon(H)
     A.vc_blade2canon_concrete(H)
+    A.vc_blade2canon_concrete(H, d=4, start=12)      # generators c, d, e, f: one is named like the prefix of every blade name
     A.vc_bladedict_getitem(H)
     D.vc_call_binary(H)
     O.vc_equality_fields(H)
